@@ -15,7 +15,7 @@ func init() {
 	fw.Register(&fw.Check{
 		ID:    "C09",
 		Level: "fault_enumeration",
-		Rule: "documents = ce.MarshalTo{CBE,CTE}Document of generated container values (slices, maps, structs of supported kinds, depth<=3) that unmarshal completely without error; in half of the cases the outermost struct types are registered as record types, so structs travel as records; " +
+		Rule: "documents = (a) three quarters: ce.MarshalTo{CBE,CTE}Document of generated container values (slices, maps, structs of supported kinds, depth<=3) that unmarshal completely without error; in half of the cases the outermost struct types are registered as record types, so structs travel as records; (b) one quarter: CBE/CTE encodings of generated lists holding marked scalars, marked lists and maps, references to earlier markers and nested lists of the same (untyped destination only); " +
 			"for each document EVERY cut k in [1, len-1] is enumerated and doc[:k] is unmarshaled with a nil template and with the value's own type as template. Oracle: err != nil at every cut; " +
 			"the returned partial value is a prefix of the full result (list: no longer than full, all but the last element equal, last element recursively a prefix; map/struct: every key present exists in full " +
 			"with a prefix value; scalar: equal or zero; string/array: equal, empty or a byte prefix); for top-level lists the number of elements lying wholly before the cut is a lower bound on the partial list's length; for top-level structs (typed template) a field that was delivered equal to its full value at one cut must be delivered unchanged at every later cut. " +
@@ -205,6 +205,10 @@ func c09Len(v interface{}) (int, bool) {
 }
 
 func runC09(c *fw.Ctx, idx int) {
+	if idx%8 == 4 || idx%8 == 5 {
+		runC09Markers(c, idx%2 == 1)
+		return
+	}
 	cfg := configuration.New()
 	cte := idx%2 == 1
 	codec := "cbe"
